@@ -73,6 +73,60 @@ def _mutation_sites(ctx, name: str) -> List[str]:
     return out
 
 
+_READ_METHODS = {"get", "items", "keys", "values", "index", "count", "copy", "__contains__", "join", "startswith", "endswith"}
+_COPYING_CALLS = {"sorted", "list", "tuple", "set", "frozenset", "dict", "len", "iter", "enumerate", "reversed", "any", "all", "min", "max", "sum", "zip", "map", "filter", "str", "repr"}
+
+
+def _read_only_by_use(ctx, m, name: str, value: ast.AST) -> Optional[str]:
+    """None when the module-level display `name` is a constant table: its elements are immutable constants and every
+    occurrence of the name, in its module and in the modules that import it, only reads it (subscript load,
+    membership, iteration, .get/.items/..., len/sorted/copying constructors).  Otherwise the reason."""
+    if isinstance(value, ast.Dict):
+        elems = [k for k in value.keys if k is not None] + list(value.values)
+        if any(k is None for k in value.keys):
+            return "built from another mapping"
+    elif isinstance(value, (ast.List, ast.Set, ast.Tuple)):
+        elems = list(value.elts)
+    else:
+        return "not a display"
+    if not all(_immutable_value(e) for e in elems):
+        return "holds a mutable element"
+    users = [m] + [o for o in ctx.tree.modules.values() if o is not m and any(src == m.name and (attr == name) for src, attr in o.imports.values())]
+    for o in users:
+        local = name if o is m else next((ln for ln, (src, attr) in o.imports.items() if src == m.name and attr == name), name)
+        for n in ast.walk(o.tree):
+            if not (isinstance(n, ast.Name) and n.id == local):
+                continue
+            p = getattr(n, "_parent", None)
+            if isinstance(n.ctx, ast.Store):
+                if o is m and isinstance(p, (ast.Assign, ast.AnnAssign)) and getattr(p, "_parent", None) is o.tree:
+                    continue  # the binding itself
+                return f"rebound at {o.rel}:{n.lineno}"
+            if isinstance(n.ctx, ast.Del):
+                return f"deleted at {o.rel}:{n.lineno}"
+            if isinstance(p, ast.Subscript) and p.value is n:
+                if isinstance(p.ctx, ast.Load):
+                    continue
+                return f"an entry is written at {o.rel}:{n.lineno}"
+            if isinstance(p, ast.Attribute) and p.value is n:
+                gp = getattr(p, "_parent", None)
+                if p.attr in _READ_METHODS and isinstance(gp, ast.Call) and gp.func is p:
+                    continue
+                return f".{p.attr} at {o.rel}:{n.lineno}"
+            if isinstance(p, ast.Compare) and any(c is n for c in p.comparators) and all(isinstance(op, (ast.In, ast.NotIn)) for op in p.ops):
+                continue
+            if isinstance(p, (ast.For, ast.comprehension)) and p.iter is n:
+                continue
+            if isinstance(p, ast.Call) and n in p.args and isinstance(p.func, ast.Name) and p.func.id in _COPYING_CALLS:
+                continue
+            if isinstance(p, ast.Starred):
+                continue
+            if isinstance(p, ast.alias):
+                continue
+            return f"used at {o.rel}:{n.lineno} in a way that may hand the table out ({type(p).__name__})"
+    return None
+
+
 # ---- a process-wide memo table is harmless when its key determines its value ------------------------------
 WHOLE = "<whole>"
 
@@ -276,6 +330,11 @@ def rule_no_shared_state(ctx, rep, rid: str) -> None:
                         else:
                             rep.ok(rid, key, {"table": name, "mutation_sites": 0})
                         continue
+                    if sname == m.name and isinstance(value, (ast.Dict, ast.List, ast.Set)) and (value.keys if isinstance(value, ast.Dict) else value.elts):
+                        why_not = _read_only_by_use(ctx, m, name, value)
+                        if why_not is None:
+                            rep.ok(rid, key, {"constant_table": "immutable elements, only read (subscript, membership, iteration, .get)"})
+                            continue
                     if sname == m.name and isinstance(value, ast.Dict) and not value.keys:
                         mt = memo_table(ctx, m, name)
                         if mt is not None and mt[0]:
@@ -572,6 +631,16 @@ def _only_deadline_uses(ctx, f: Func, var: str, depth: int) -> bool:
     return True
 
 
+def _assigned_local(call: ast.AST) -> Optional[str]:
+    """The local a clock reading is stored in: `t = clock()`, or `t = other if cond else clock()` (either arm)."""
+    child, p = call, getattr(call, "_parent", None)
+    while isinstance(p, ast.IfExp) and p.test is not child:
+        child, p = p, getattr(p, "_parent", None)
+    if isinstance(p, ast.Assign) and p.value is child and len(p.targets) == 1 and isinstance(p.targets[0], ast.Name):
+        return p.targets[0].id
+    return None
+
+
 def rule_clock_rng_allowlist(ctx, rep, rid: str) -> None:
     rep.rule(rid, "the clock and the random generator are read only by Date.now, Math.random, the limit check, the functions that stamp the deadline and the deadline closures", floor=4)
     lc = ctx.facts.limit_check()
@@ -595,7 +664,7 @@ def rule_clock_rng_allowlist(ctx, rep, rid: str) -> None:
                 why = f"native {natives[id(f)]}"
             elif any(isinstance(x, ast.Assign) and any(norm(t).endswith(".start_time") for t in x.targets) and fn in norm(x.value) for x in f.own_nodes()):
                 why = "stamps the evaluation's start time"
-            elif isinstance(getattr(n, "_parent", None), ast.Assign) and len(n._parent.targets) == 1 and isinstance(n._parent.targets[0], ast.Name) and _only_deadline_uses(ctx, f, n._parent.targets[0].id, 0):
+            elif _assigned_local(n) is not None and _only_deadline_uses(ctx, f, _assigned_local(n), 0):
                 why = "start of the evaluation kept in a local that only becomes a start_time or the operand of a deadline comparison"
             else:
                 rets = [x.value for x in f.own_nodes() if isinstance(x, ast.Return) and x.value is not None]
